@@ -57,7 +57,9 @@ def oracle(u: Universe, tc: TypeCase, aval: Dict[str, Any], route: str, tally: T
                 raise HarnessError(f"JSON model disagrees with reference for {tc.msg.name} {aval!r}: {model_d!r}")
         except json_format.ParseError as e:
             raise HarnessError(f"reference rejects the JSON model's rendering {model_d!r}: {e}")
-        errs = jsonmodel.shape_errors(u.schema, tc.msg, d)
+        # the lexical clauses are about the JSON *text*: integer / bool map keys of to_dict are
+        # turned into JSON strings by json.dumps
+        errs = jsonmodel.shape_errors(u.schema, tc.msg, json.loads(text))
         return [("lexical", "; ".join(errs[:2])[:400])] if errs else []
     chk = refcls()
     try:
